@@ -660,7 +660,7 @@ func ruleBounds(c *Ctx) {
 							}
 							parts = parts[1:]
 						}
-						if parts[0] == fname(fn) && (parts[1] == "" || strings.HasPrefix(bd, parts[1])) {
+						if parts[0] == b.canonFname(fn) && (parts[1] == "" || strings.HasPrefix(bd, parts[1])) {
 							if len(r) > len(reason) || reason == "" {
 								reason = r
 							}
